@@ -132,6 +132,18 @@ class SSeq(SV):
     return f'SSeq(len={self.len})'
 
 
+class PList(list):
+  """A Python list created by interpreted code.  It starts concrete; when it
+  has to absorb a symbolic-length sequence it is *promoted*: `sym` then holds
+  the SSeq that carries its content from then on (identity and aliasing are
+  preserved because every reader resolves the PList to that one SSeq)."""
+  __slots__ = ('sym',)
+
+  def __init__(self, *a):
+    super().__init__(*a)
+    self.sym = None
+
+
 class SObj(SV):
   """A heap object of a real class with symbolic fields.
 
